@@ -6,6 +6,7 @@ import (
 	"reflect"
 	"strings"
 
+	"gitee.com/xuesongtao/protoc-go-valid/valid"
 	ctime "verif/harness/internal/clock/time"
 
 	"verif/harness/internal/gal"
@@ -151,6 +152,47 @@ func runGraphs(c *Ctx, prop string, width, depth int) error {
 	// bool / float / small integers (the key is part of the path), pointers to pointers to structs
 	emitDirectedShapes(w)
 	emitJsonEchoes(w)
+	// ---- the clause separator is an exported variable (valid.ErrEndFlag): with another separator every clause, group
+	// clauses included, ends with it and the default one appears nowhere.  Judged on the Go side (the model carries the
+	// default separator): as many pieces as expected clauses, each "C" piece holding its marker, in order.
+	{
+		old := valid.ErrEndFlag
+		valid.ErrEndFlag = " |#| "
+		var viol []interface{}
+		check := func(src interface{}, exps []expE, what string) {
+			err := valid.Struct(src)
+			text := ""
+			if err != nil {
+				text = err.Error()
+			}
+			var pieces []string
+			if text != "" {
+				pieces = strings.Split(text, valid.ErrEndFlag)
+			}
+			bad := len(pieces) != len(exps) || strings.Contains(text, old)
+			for i := 0; !bad && i < len(exps); i++ {
+				if exps[i].kind == "C" && !strings.Contains(pieces[i], exps[i].text) {
+					bad = true
+				}
+			}
+			if bad && len(viol) < 5 {
+				viol = append(viol, map[string]interface{}{"kind": "custom-separator", "separator": valid.ErrEndFlag, "case": what, "error": text,
+					"expected_clauses": len(exps), "src": fmt.Sprintf("%+v", src)})
+			}
+		}
+		for _, d := range directedShapes() {
+			check(d.src, d.exps, "directed:"+d.cell)
+		}
+		for i := 0; i < 40; i++ {
+			src, exps, cell := wgsCase(c.Rng.Fork())
+			check(src, exps, "groups:"+cell)
+			src2, exps2, cell2 := wgs2Case(c.Rng.Fork())
+			check(src2, exps2, "groups2:"+cell2)
+		}
+		valid.ErrEndFlag = old
+		w.Extra["violations"] = viol
+		w.Count("custom-separator")
+	}
 	// ---- cross-field groups (C02: "group clauses last", "exactly one clause per violated rule instance")
 	{
 		for i := 0; i < n/6; i++ {
@@ -199,6 +241,10 @@ func directedShapes() []directedCase {
 		{&WEmb{WAge: 200, WNick: "abc", WReq: WReq{N: 2}, N: 1}, []expE{{"C", "WEmb.WAge", "T81"}, {"C", "WEmb.WNick", "T82"},
 			{"C", "WEmb.WReq.R", "T95"}, {"C", "WEmb.WReq.N", "T96"}, {"C", "WEmb.N", "T83"}}, "embedded-fields"},
 		{&WEmb{WAge: 20, WNick: "abcdef", N: 7}, nil, "embedded-fields-ok"},
+		{&WPPC{S: []**WReq{ppz}, A: [1]**WReq{ppz2}, M: map[string]**WReq{"k": ppz}, E: []**WReq{ppz2}},
+			[]expE{{"C", "WPPC.S[0].R", "T95"}, {"C", "WPPC.A[0].R", "T95"}, {"C", "WPPC.A[0].N", "T96"}, {"C", "WPPC.M[k].R", "T95"},
+				{"C", "WPPC.E[0].R", "T95"}, {"C", "WPPC.E[0].N", "T96"}}, "containers-of-ptr-ptr"},
+		{&WPPC{}, []expE{{"C", "WPPC.S", "T71"}, {"C", "WPPC.A", "T72"}, {"C", "WPPC.M", "T73"}}, "containers-of-ptr-ptr-zero"},
 	}
 }
 
